@@ -58,6 +58,10 @@ CHECKS = {
    text="Config.tla defines Effective(sources) = env over file over default per key type and the database-section validation table; TLC checks Precedence / InvalidDbRefused on the tables and emits them; the harness enumerates EVERY leaf key of AppConfig by reflection over the mapstructure tags (new keys are included), and for every key x every subset of {env, file} writes a temporary YAML, sets/unsets the BHS_ variable, runs viper.Reset + config.SetDefaults + config.Load and compares the field, also checking that every OTHER key kept its default; all 320 meaningful validation rows go through Load (file or environment) + AppConfig.Validate.",
    technique="explicit TLA+ tables (Config.tla) checked and emitted by TLC; instantiated on every reflected configuration key through the real viper-based loader",
    note=TB + " Empty values cannot be expressed by a source (viper keeps the default); they are set on the loaded structure before Validate."),
+ "C15": dict(cat="model_checking", ref="DESIGN.md §5 C15",
+   text="ChainSteps.tla with 2-3 submitter processes and a reader interleaved at repository-call grain: TLC checks LValid, NeverTwoLongestAtOneHeight, ReaderSeesValidTip and SerialOutcome (the store equals Chain.AddRow folded in SOME order) on every state, and must find the violation when the Add mutex is removed from the model (sensitivity); real goroutines (competing children of the tip, forks, children of in-flight headers, readers) run over the real SQL stack under a harness scheduler that grants repository calls one at a time in seeded random order; every snapshot after a write, every reader observation and the final store are validated by TLC against Trace_Conc.tla; the same scenarios run free under the Go race detector with HTTP readers (incl. /network/peer).",
+   technique="explicit TLA+ spec (ChainSteps.tla) model-checked by TLC over all interleavings; recorded real-goroutine executions validated by TLC (Trace_Conc.tla); Go race detector as a monitor",
+   note=TB + " Real-code schedules are seeded random at repository-call granularity (exhaustive enumeration is on the specification). Peer connect/disconnect churn is exercised by the C06 rig."),
 }
 
 NA = []
